@@ -383,6 +383,20 @@ theorem genG_stmt (mod fn : String) (φ : String → Option String) (T : List St
         (fun x hx => h x (List.mem_append.mpr (Or.inl hx)))
     have hnoVar : ∀ (i : SInstr) (sp : Span), var? i = none → ∀ m ∈ codeVars [(i, sp)], False := by
       intro i sp h m hm; simp [codeVars, h] at hm
+    have hLl : ∀ (env : CEnv) (e : Expr) (lm : LM), (∀ x ∈ Frag.namesL e, x ∈ T) →
+        ∀ m ∈ codeVars (cgL mod (ρS env.scopes) φ e lm).1, m ∈ liveNames T env.scopes := by
+      intro env e lm h
+      cases e <;> try exact hEl env _ lm h
+      rename_i csp cty base args sw
+      cases base <;> try exact hEl env _ lm h
+      rename_i msp mty b nm mop
+      cases mop <;> try exact hEl env _ lm h
+      cases args <;> try exact hEl env _ lm h
+      cases sw <;> try exact hEl env _ lm h
+      intro m hm
+      have hc : codeVars [((Instr.member nm : SInstr), msp), (.copyPush (.int 0), csp), (.callVal, csp)] = [] := rfl
+      simp only [cgL, codeVars_append, hc, List.append_nil] at hm
+      exact hEl env b lm h m hm
     refine ⟨?_, ?_, ?_⟩
     · intro loops st env hd hT hws
       cases st
@@ -450,7 +464,7 @@ theorem genG_stmt (mod fn : String) (φ : String → Option String) (T : List St
         cases nc
         · simp only [Frag.identsGS, List.mem_cons] at hT
           simp only [cgS]
-          have hlive := hEl env e env.lm (fun x hx => hT x (Or.inr hx))
+          have hlive := hLl env e env.lm (fun x hx => hT x (Or.inr hx))
           refine GenG.fresh mod T env name (hT name (Or.inl rfl)) _ ?_ ?_ _ ?_
           · rfl
           · exact Nat.le_succ _
@@ -602,6 +616,22 @@ theorem genG_stmt (mod fn : String) (φ : String → Option String) (T : List St
             exact (h1.trans h2).trans h3
         case call csp cty base args sw =>
           cases base <;> try exact GenG.nil T env
+          case member msp mty b nm mop =>
+            cases mop <;> cases args <;> try exact GenG.nil T env
+            rename_i a rest
+            cases rest <;> cases sw <;> try exact GenG.nil T env
+            simp only [Frag.identsGS, List.mem_append] at hT
+            have hla := hEl env a.2 env.lm (fun x hx => hT x (Or.inr (by
+              simp only [Frag.namesGArgs, Frag.varsGArgs, Frag.callsGArgs, List.append_nil]; exact hx)))
+            have hlb := hEl env b (cgE mod (ρS env.scopes) φ a.2 env.lm).2 (fun x hx => hT x (Or.inl hx))
+            have hc : codeVars [((Instr.member nm : SInstr), msp), (.copyPush (.int 1), csp), (.callVal, csp)] = [] := rfl
+            simp only [cgS]
+            refine GenG.plain rfl rfl ?_
+            intro m hm
+            simp only [codeVars_append, hc, List.append_nil, List.mem_append] at hm
+            rcases hm with hm | hm
+            · exact hla m hm
+            · exact hlb m hm
           rename_i isp ity name g f si
           simp only [Frag.identsGS, List.mem_cons] at hT
           have hTa : ∀ x ∈ Frag.varsGArgs args, x ∈ T :=
